@@ -56,6 +56,29 @@ def _is_timeish(e, org, at) -> bool:
     return False
 
 
+def _callers_arg(ctx, fn, pname):
+    """[(caller function, statement, argument expression)] for every call of `fn` in the package that binds parameter `pname`"""
+    p = ctx.p
+    out = []
+    names = [q.name for q in fn.params]
+    off = 1 if (fn.cls is not None and fn.parent is None and names and names[0] in ("self", "cls")) else 0
+    for g in p.all_functions():
+        for st in au.walk_stmts(g.body):
+            for c in au.walk_own(st):
+                if not (isinstance(c, ast.Call) and au.method_name(c) == fn.name):
+                    continue
+                if fn not in p.resolve_call(c, g):
+                    continue
+                a = au.kwarg(c, pname)
+                if a is None and pname in names:
+                    pos = names.index(pname) - off
+                    if 0 <= pos < len(c.args) and not any(isinstance(x, ast.Starred) for x in c.args):
+                        a = c.args[pos]
+                if a is not None:
+                    out.append((g, st, a))
+    return out
+
+
 def _norm_cmp(c: ast.Compare):
     """[(left, op, right)] for (possibly chained) comparisons."""
     out = []
@@ -332,12 +355,37 @@ def run(ctx):
                             for x in nodes)
                         n_e += 1
                         ok = normalised or grid_derived
+                        if not ok and isinstance(other, ast.Name) and fn.param(other.id) is not None and not [d for d in ctx.flow(fn).defs(other.id, st) if d.kind != "param"]:
+                            # the value is a parameter of a helper: what matters is what the package's own callers hand over
+                            # (a helper extracted from a comparison must not change the verdict of that comparison)
+                            sites = _callers_arg(ctx, fn, other.id)
+                            if sites:
+                                bad_site = None
+                                for cfn, cst, arg in sites:
+                                    corg = ctx.origins(cfn, values_only=True)
+                                    cfull = ctx.origins(cfn).nodes(arg, cst)
+                                    cnorm = any(isinstance(x, ast.Call) and au.method_name(x) in NORMALISERS for x in cfull) or \
+                                        any(isinstance(x, ast.Call) and au.method_name(x) in ("Timestamp", "date_range", "to_datetime") and au.kwarg(x, "tz") is not None for x in cfull)
+                                    cgrid = any(isinstance(x, ast.Attribute) and x.attr in GRID_ATTRS and (
+                                        "timegrid" in (au.dotted(x) or "") or "restricted" in (au.dotted(x) or "") or (cfn.cls is not None and cfn.cls.name == "Timegrid" and au.base_name(x) == "self"))
+                                        for x in corg.nodes(arg, cst))
+                                    if not (cnorm or cgrid):
+                                        bad_site = (cfn, cst, arg)
+                                ok = bad_site is None
+                                if ok:
+                                    ctx.ob("C19.e", fn, au.short(n, 90), True, ok_detail="parameter of a helper: every caller in the package hands over a normalised / grid-derived date", node=n)
+                                    continue
+                                fn_b, st_b, arg_b = bad_site
+                                ctx.ob("C19.e", fn_b, "%s handed to %s" % (au.short(arg_b, 40), fn.qualname), False,
+                                       "%s is handed to %s, which compares it with grid time points, but it neither passes a zone normaliser nor derives from the "
+                                       "grid: on a zone-aware grid a naive user date raises TypeError" % (au.short(arg_b, 40), fn.qualname), node=st_b)
+                                continue
                         ctx.ob("C19.e", fn, au.short(n, 90), ok,
                                "%s is compared with grid time points but neither passes a zone normaliser nor derives from the grid: on a "
                                "zone-aware grid a naive user date raises TypeError (asset windows, interval data and take periods with naive "
                                "dates are healed)" % au.short(other, 40), node=n,
                                ok_detail="zone-normalised" if normalised else "derived from the grid")
-    ctx.require(n_a >= 4, "fewer than 4 interval membership tests over time points found", rules=['C19.a'])
+    ctx.require(n_a >= 2, "fewer than 2 interval membership tests over time points found", rules=['C19.a'])
     ctx.require(n_e >= 5, "fewer than 5 ordering comparisons with grid time points found", rules=['C19.e'])
 
     # ================================================================= C19.b
